@@ -162,3 +162,27 @@ Proof.
     apply f_equal2; [ring | apply f_equal2; [ring | reflexivity]].
   - cbn. intros H. injection H as H1 H2. lra.
 Qed.
+
+(* ---- the BiCGSTAB breakdown witness over Qc: [[2,0,1],[0,4,-1],[0,0,3]], b = (0,-6,6) is a left eigenvector (lam = 4) ---- *)
+Local Open Scope nat_scope.
+Definition k3q_s : sparse AQ :=
+  @mkS AQ 3 3 5 [q 2 1; q 4 1; q 1 1; q (-1) 1; q 3 1] [0; 1; 0; 1; 2] [0; 1; 2; 5].
+Lemma k3q_s_wf : wfS k3q_s.
+Proof.
+  unfold wfS, k3q_s; cbn [sp_rows sp_cols sp_nonzero sp_val sp_row_index sp_col_start length nth Nat.add].
+  repeat split; try reflexivity.
+  - intros j Hj. do 3 (destruct j as [|j]; [cbn [nth Nat.add]; lia|]). lia.
+  - intros k Hk. do 5 (destruct k as [|k]; [cbn [nth]; lia|]). lia.
+Qed.
+Lemma k3q_left_eigenvector :
+  let r0 := @zipw AQ sub [q 0 1; q (-6) 1; q 6 1] (@sp_apply AQ k3q_s [q 0 1; q 0 1; q 0 1]) in
+  @sp_tapply AQ k3q_s r0 = @vscale AQ r0 (q 4 1).
+Proof.
+  cbv zeta. apply (nth_ext _ _ (@zero AQ) (@zero AQ)); [reflexivity|].
+  intros k Hk. cbn in Hk. destruct k as [|[|[|k]]]; try lia; apply Qc_is_canon; vm_compute; reflexivity.
+Qed.
+Definition exit_code_q (o : res (iout SAQ)) : option nat :=
+  match o with Ok (IErr _, _, g) => Some (g_exit g) | _ => None end.
+Lemma k3q_stab_exit :
+  exit_code_q (@run_sparse SAQ BiCGSTAB k3q_s [q 0 1; q (-6) 1; q 6 1] [q 0 1; q 0 1; q 0 1] 160 (q 1 1000000)) = Some 10.
+Proof. vm_compute. reflexivity. Qed.
